@@ -3,8 +3,8 @@ Model of the beacon-duty handlers of operator/duties (attester.go, proposer.go, 
 base_handler.go, dutystore/duties.go, dutystore/sync_committee.go) — property C16.  Core Lean only.
 
 What is modelled (line by line from the Go source):
-* the handler state: `fetchFirst`, `fetchCurrentEpoch/Period`, `fetchNextEpoch/Period`, `indicesChanged`
-  and the duty store (per epoch→slot→validator, or per period→validator);
+* the handler state: `fetchFirst`, `fetchCurrentEpoch/Period`, `fetchNextEpoch/Period`, `indicesChanged`,
+  `lastTickEpoch/Period` + `ticked`, and the duty store (per epoch→slot→validator, or per period→validator);
 * the three `HandleDuties` select branches as events `tick slot clock r1 r2`, `reorg slot prev cur`,
   `indices clock`; `clock` is the value `network.Beacon.EstimatedCurrentSlot()` returns while the event is
   handled (the handlers read it in `shouldExecute`, in the indices-change branch and — sync committee — in
@@ -121,11 +121,12 @@ def attShouldExecute (n : Net) (clock dslot : Nat) : Bool :=
 
 def attEntry (ep : Nat) (d : Duty) : Entry := ⟨ep, d.slot, d.vidx, d.tag, true⟩
 
-/-- `fetchAndProcessDuties(epoch)`: (state, err == nil, output).  No reset: descriptors are added on top. -/
+/-- `fetchAndProcessDuties(epoch)`: (state, err == nil, output).  After the successful beacon call:
+    `ResetEpoch(epoch)`, then `Add` every returned duty. -/
 def attFetch (st : HState) (ep : Nat) : FetchRes → HState × Bool × List Atom
   | .noIdx => (st, true, [.fetch ep ep .noIdx])
   | .fail => (st, false, [.fetch ep ep .fail])
-  | .ok c ds => ({ st with store := st.store.addAll (attEntry ep) ds }, true, [.fetch ep ep (.ok c ds)])
+  | .ok c ds => ({ st with store := (st.store.reset ep).addAll (attEntry ep) ds }, true, [.fetch ep ep (.ok c ds)])
 
 /-- second half of `processFetching`: `if fetchNextEpoch && shouldFetchNexEpoch(slot) { … }` -/
 def attFetchNextPart (n : Net) (st : HState) (epoch slot : Nat) (r : FetchRes) : HState × List Atom :=
@@ -183,11 +184,6 @@ def attIndices (n : Net) (st : HState) (clock : Nat) : HState :=
 
 /-- `NewAttesterHandler` + the preamble of `HandleDuties` (`fetchNextEpoch = true`) -/
 def attInit : HState := ⟨[], true, true, true, false⟩
-
-def attStep (n : Net) (st : HState) : Event → HState × List Atom
-  | .tick slot clock r1 r2 => attTick n st slot clock r1 r2
-  | .reorg slot prev cur => (attReorg n st slot prev cur, [])
-  | .indices clock => (attIndices n st clock, [])
 
 /-! ## proposer handler (proposer.go) -/
 
@@ -315,6 +311,7 @@ def syncInit (n : Net) (clock : Nat) (r : FetchRes) : HState × List Atom :=
   let (st, _, o) := syncFetch n ⟨[], true, true, false, false⟩ (n.periodOfSlot clock) clock r
   ({ st with fetchCur := true, fetchNext := true }, o)
 
+/-- ticker / reorg / indices branches without the first-tick and late-notice blocks (= the code before the fix) -/
 def syncStep (n : Net) (st : HState) : Event → HState × List Atom
   | .tick slot clock r1 r2 => syncTick n st slot clock r1 r2
   | .reorg slot _ cur => (syncReorg n st slot cur, [])
@@ -325,30 +322,124 @@ def syncStep (n : Net) (st : HState) : Event → HState × List Atom
 inductive Kind | att | prop | sync
 deriving Repr, DecidableEq
 
-def initH (k : Kind) (n : Net) (clock : Nat) (r : FetchRes) : HState × List Atom :=
-  match k with
-  | .att => (attInit, [])
-  | .prop => propInit n clock r
-  | .sync => syncInit n clock r
+/-- handler state + the epoch (attester) / period (sync committee) of the last tick handled
+    (`lastTickEpoch`/`lastTickPeriod` with `ticked`; `none` = no tick yet; unused by the proposer handler) -/
+structure RState where
+  st : HState
+  le : Option Nat
+deriving Repr, DecidableEq
 
-def step (k : Kind) (n : Net) (st : HState) (e : Event) : HState × List Atom :=
+/-- top of the ticker branch (attester, sync committee): first tick of a new epoch (period) while the duties of this
+    epoch (period) still wait to be (re-)fetched as "next" duties ⇒ fetch them as current duties before executing -/
+def repairPre (st : HState) (le : Option Nat) (K : Nat) : HState :=
+  if (le != some K && st.fetchNext) = true then { st with fetchCur := true, fetchFirst := true } else st
+
+/-- reorg(current) / indices branch after `ResetEpoch(currentEpoch+1)` (`Reset(period+1)`): late notice — the epoch
+    (period) `K` that was just reset is already being ticked ⇒ fetch it before the next execution -/
+def lateFix (st : HState) (le : Option Nat) (K : Nat) : HState :=
+  if (le == some K) = true then { st with fetchCur := true, fetchFirst := true } else st
+
+def attReorgN (n : Net) (st : HState) (le : Option Nat) (slot : Nat) (prev cur : Bool) : HState :=
+  if (!prev && cur && attShouldFetchNext n slot) = true then
+    lateFix (attReorg n st slot prev cur) le (n.epoch slot + 1)
+  else attReorg n st slot prev cur
+
+def attIndicesN (n : Net) (st : HState) (le : Option Nat) (clock : Nat) : HState :=
+  if attShouldFetchNext n clock = true then lateFix (attIndices n st clock) le (n.epoch clock + 1)
+  else attIndices n st clock
+
+def syncReorgN (n : Net) (st : HState) (le : Option Nat) (slot : Nat) (cur : Bool) : HState :=
+  if (cur && syncShouldFetchNext n slot) = true then lateFix (syncReorg n st slot cur) le (n.periodOfSlot slot + 1)
+  else syncReorg n st slot cur
+
+def initH (k : Kind) (n : Net) (clock : Nat) (r : FetchRes) : RState × List Atom :=
   match k with
-  | .att => attStep n st e
-  | .prop => propStep n st e
-  | .sync => syncStep n st e
+  | .att => (⟨attInit, none⟩, [])
+  | .prop => (⟨(propInit n clock r).1, none⟩, (propInit n clock r).2)
+  | .sync => (⟨(syncInit n clock r).1, none⟩, (syncInit n clock r).2)
+
+/-- one event, handler `k` (the code as it is) -/
+def step (k : Kind) (n : Net) (rs : RState) (e : Event) : RState × List Atom :=
+  match k, e with
+  | .att, .tick slot clock r1 r2 =>
+    (⟨(attTick n (repairPre rs.st rs.le (n.epoch slot)) slot clock r1 r2).1, some (n.epoch slot)⟩,
+     (attTick n (repairPre rs.st rs.le (n.epoch slot)) slot clock r1 r2).2)
+  | .att, .reorg slot prev cur => (⟨attReorgN n rs.st rs.le slot prev cur, rs.le⟩, [])
+  | .att, .indices clock => (⟨attIndicesN n rs.st rs.le clock, rs.le⟩, [])
+  | .prop, e => (⟨(propStep n rs.st e).1, rs.le⟩, (propStep n rs.st e).2)
+  | .sync, .tick slot clock r1 r2 =>
+    (⟨(syncTick n (repairPre rs.st rs.le (n.periodOfSlot slot)) slot clock r1 r2).1, some (n.periodOfSlot slot)⟩,
+     (syncTick n (repairPre rs.st rs.le (n.periodOfSlot slot)) slot clock r1 r2).2)
+  | .sync, .reorg slot _ cur => (⟨syncReorgN n rs.st rs.le slot cur, rs.le⟩, [])
+  | .sync, .indices clock => (⟨syncIndices n rs.st clock, rs.le⟩, [])
 
 /-- all outputs of a run, in order -/
-def runFrom (k : Kind) (n : Net) : HState → List Event → List Atom
+def runFrom (k : Kind) (n : Net) : RState → List Event → List Atom
   | _, [] => []
-  | st, e :: es => (step k n st e).2 ++ runFrom k n (step k n st e).1 es
+  | rs, e :: es => (step k n rs e).2 ++ runFrom k n (step k n rs e).1 es
 
 /-- final state of a run -/
-def stateAfter (k : Kind) (n : Net) : HState → List Event → HState
-  | st, [] => st
-  | st, e :: es => stateAfter k n (step k n st e).1 es
+def stateAfter (k : Kind) (n : Net) : RState → List Event → RState
+  | rs, [] => rs
+  | rs, e :: es => stateAfter k n (step k n rs e).1 es
 
 /-- a whole run: initial duties at `clock0` (outcome `r0`), then the events -/
 def run (k : Kind) (n : Net) (clock0 : Nat) (r0 : FetchRes) (evs : List Event) : List Atom :=
   (initH k n clock0 r0).2 ++ runFrom k n (initH k n clock0 r0).1 evs
+
+/-! ## the handlers BEFORE the fix (kept for the regression lemmas of Props/C16.lean)
+
+Before the fix the attester fetch did not reset the epoch before adding, the ticker branches had no
+first-tick-of-a-new-epoch/period block and the notice branches no late-notice block. -/
+
+def attFetchOld (st : HState) (ep : Nat) : FetchRes → HState × Bool × List Atom
+  | .noIdx => (st, true, [.fetch ep ep .noIdx])
+  | .fail => (st, false, [.fetch ep ep .fail])
+  | .ok c ds => ({ st with store := st.store.addAll (attEntry ep) ds }, true, [.fetch ep ep (.ok c ds)])
+
+def attFetchNextPartOld (n : Net) (st : HState) (epoch slot : Nat) (r : FetchRes) : HState × List Atom :=
+  if st.fetchNext && attShouldFetchNext n slot then
+    match attFetchOld st (epoch + 1) r with
+    | (st2, true, o) => ({ st2 with fetchNext := false }, o)
+    | (st2, false, o) => (st2, o)
+  else (st, [])
+
+def attProcessFetchingOld (n : Net) (st : HState) (epoch slot : Nat) (r1 r2 : FetchRes) : HState × List Atom :=
+  if st.fetchCur then
+    match attFetchOld st epoch r1 with
+    | (st1, false, o1) => (st1, o1)
+    | (st1, true, o1) =>
+      let (st2, o2) := attFetchNextPartOld n { st1 with fetchCur := false } epoch slot r2
+      (st2, o1 ++ o2)
+  else attFetchNextPartOld n st epoch slot r1
+
+def attTickOld (n : Net) (st : HState) (slot clock : Nat) (r1 r2 : FetchRes) : HState × List Atom :=
+  let epoch := n.epoch slot
+  let (st1, out) :=
+    if st.fetchFirst then
+      let (s, o) := attProcessFetchingOld n { st with fetchFirst := false, indicesChanged := false } epoch slot r1 r2
+      (s, o ++ attProcessExecution n s epoch slot clock)
+    else
+      let o0 := attProcessExecution n st epoch slot clock
+      let s0 := if st.indicesChanged then { st with store := st.store.reset epoch, indicesChanged := false } else st
+      let (s, o) := attProcessFetchingOld n s0 epoch slot r1 r2
+      (s, o0 ++ o)
+  (attPost n st1 slot, out)
+
+def stepOld (k : Kind) (n : Net) (st : HState) (e : Event) : HState × List Atom :=
+  match k, e with
+  | .att, .tick slot clock r1 r2 => attTickOld n st slot clock r1 r2
+  | .att, .reorg slot prev cur => (attReorg n st slot prev cur, [])
+  | .att, .indices clock => (attIndices n st clock, [])
+  | .prop, e => propStep n st e
+  | .sync, e => syncStep n st e
+
+def runFromOld (k : Kind) (n : Net) : HState → List Event → List Atom
+  | _, [] => []
+  | st, e :: es => (stepOld k n st e).2 ++ runFromOld k n (stepOld k n st e).1 es
+
+/-- a whole run of the handlers before the fix -/
+def runOld (k : Kind) (n : Net) (clock0 : Nat) (r0 : FetchRes) (evs : List Event) : List Atom :=
+  (initH k n clock0 r0).2 ++ runFromOld k n (initH k n clock0 r0).1.st evs
 
 end Ssv.Duties
